@@ -496,6 +496,54 @@ def run(ctx):
                        'its default (repeated keys are concatenated whatever policy was asked for)' % (q_, a_.arg),
                        construct='%s(%s)' % (q_, a_.arg), trivial=True)
 
+    # ---- R18t: a forwarded option keeps the default of the method it is forwarded to
+    ctx.rule('R18t', 'where a shorthand of the argument-info classes passes an option on to another method of its class, the value '
+                     'it passes when the caller says nothing is that method\'s own default: key-value parsing of an argument '
+                     'looks at the same content node list as get_content_nodelist() returns', 0)
+    n_fo = 0
+    for q_, f_ in sorted(pim.functions.items()):
+        if '.' not in q_:
+            continue
+        cls_ = q_.rsplit('.', 1)[0]
+        ldefs = {}
+        for a_ in iter_own(f_):
+            if isinstance(a_, ast.Assign) and len(a_.targets) == 1 and isinstance(a_.targets[0], ast.Name):
+                ldefs.setdefault(a_.targets[0].id, []).append(a_.value)
+        pdef = {}
+        pa_ = f_.args.args[1:]
+        for a_, d_ in zip(pa_[len(pa_) - len(f_.args.defaults):], f_.args.defaults):
+            pdef[a_.arg] = d_
+        for c_ in iter_own(f_):
+            if not (isinstance(c_, ast.Call) and is_self_attr(c_.func) and cls_ + '.' + c_.func.attr in pim.functions):
+                continue
+            tgt = pim.functions[cls_ + '.' + c_.func.attr]
+            ta_ = tgt.args.args[1:]
+            tdef = dict(zip([x_.arg for x_ in ta_[len(ta_) - len(tgt.args.defaults):]], tgt.args.defaults))
+            for k_ in c_.keywords:
+                if k_.arg is None or k_.arg not in tdef:
+                    continue
+                v_ = k_.value
+                dflt = None
+                if isinstance(v_, ast.Name) and len(ldefs.get(v_.id, [])) == 1:
+                    v_ = ldefs[v_.id][0]
+                if isinstance(v_, ast.Call) and call_name(v_) in ('pop', 'get') and len(v_.args) == 2:
+                    dflt = v_.args[1]
+                elif isinstance(v_, ast.Call) and call_name(v_) in ('pop', 'get') and len(v_.args) == 1:
+                    dflt = ast.Constant(value=None)
+                elif isinstance(v_, ast.Name) and v_.id in pdef:
+                    dflt = pdef[v_.id]
+                if dflt is None:
+                    continue
+                n_fo += 1
+                ctx.decide('R18t', unparse(dflt) == unparse(tdef[k_.arg]), pim, c_,
+                           '%s forwards %s with the default %s of %s' % (q_, k_.arg, unparse(dflt), c_.func.attr),
+                           '%s passes %s=%s to %s() when the caller says nothing, but %s() itself defaults to %s: the two ways of '
+                           'reaching the content disagree (a double-wrapped argument `[{a=1,b}]` is one key for '
+                           'parse_content_as_keyval and three parts for get_content_nodelist().split_at_chars)'
+                           % (q_, k_.arg, unparse(dflt), c_.func.attr, c_.func.attr, unparse(tdef[k_.arg])),
+                           construct='%s -> %s(%s=)' % (q_, c_.func.attr, k_.arg))
+    ctx.holds('R18t', pim, None, '%d forwarded option default(s) compared' % n_fo, construct='forwarded defaults scan', trivial=True)
+
     # ---- R18n: None placeholders in a node list
     ctx.rule('R18n', 'a loop over a node list that compares its element with None reads attributes of the element only '
                      'where it is known not to be None (grules.loop_var_none_deref, per path)', 0)
@@ -547,6 +595,38 @@ def run(ctx):
                        'separator only (`{a},{b}`) is kept whole and the list is not split there, while regular-expression '
                        'and callable separators still split' % (' & '.join(bad_.cond_src())[-140:] if bad_ else ''),
                        construct='split_at_chars: scan')
+    # ---- R18s: a chunk of a chars node is kept exactly when it is not empty
+    ctx.rule('R18s', 'split_at_chars: a chunk n.chars[a:b] becomes a node on every path on which it is non-empty -- the only test on '
+                     'the chunk is its length: a chunk of blanks is text of the source like any other, dropping it (strip()) makes '
+                     'the joined parts differ from the source and turns `k= {x}` into a lone group', 3)
+    try:
+        ccs = symex.Walker(is_sink=lambda c_: call_name(c_) == 'chars_to_node').run(sac)
+    except symex.TooManyPaths:
+        ccs = None
+    if ccs is None:
+        ctx.unknown('R18s', m, sac, 'too many paths', construct='split_at_chars: chunk tests')
+    else:
+        seen_s = set()
+        for cs in ccs:
+            if not cs.sub.args:
+                continue
+            ctxt = unparse(cs.sub.args[0])
+            odd = []
+            for t_, p_ in cs.conds:
+                for a_, ap_ in symex._atoms(t_, p_):
+                    at = unparse(a_)
+                    if ctxt in at and at not in (ctxt, 'len(%s)' % ctxt, 'len(%s) > 0' % ctxt, 'len(%s) != 0' % ctxt,
+                                                 'len(%s) == 0' % ctxt, 'len(%s) >= 1' % ctxt, 'not %s' % ctxt):
+                        odd.append(at)
+            key_ = (id(cs.node), tuple(odd))
+            if key_ in seen_s:
+                continue
+            seen_s.add(key_)
+            ctx.decide('R18s', not odd, m, cs.node, 'chunk %s kept when non-empty' % short(cs.sub.args[0], 40),
+                       'the chunk %s becomes a node only when %s: a chunk that fails this test although it is not empty (blanks '
+                       'between a separator and a following group or macro) is dropped from the parts'
+                       % (short(cs.sub.args[0], 40), ' and '.join(o_[:60] for o_ in odd)),
+                       construct='split_at_chars: chunk %s' % short(cs.sub.args[0], 40))
     # ---- R18r: one separator closes one part
     ctx.rule('R18r', 'split_at_chars: on every path through one turn of the scanning loop a separator closes at most one part '
                      '(one flush), and with keep_empty exactly one: a separator never produces an extra empty part in front of '
